@@ -235,7 +235,10 @@ def structure(o, with_text=False):
         if "exc" in t:
             res[ty] = "exc"
             continue
-        res[ty] = [(addr, p["lineage"], p["style"], p["list_position"], p["elem"])
+        # the element's position among its siblings may move when runs merge differently;
+        # C19 speaks of shape, lineage, styles and list positions
+        res[ty] = [(addr, p["lineage"], p["style"], p["list_position"],
+                    p["elem"] if p["elem"] in (None, "copy") else "elem")
                    for addr, p in iter_pars(t["pars"])]
     return res
 
